@@ -2643,6 +2643,7 @@ def replace_negated_numeric_comparison(source: str) -> str:
 @processing.fix
 def merge_chained_comps(source: str) -> str:
     root = core.parse(source)
+    safe_callables = parsing.safe_callable_names(root)
 
     template = ast.AST(
         elt=object,
@@ -2667,6 +2668,22 @@ def merge_chained_comps(source: str) -> str:
             continue
         if not isinstance(template_match.root, (ast.SetComp, ast.GeneratorExp, ast.ListComp)):
             continue
+
+        if not isinstance(template_match.root, ast.GeneratorExp):
+            # A list or set is complete before the outer comprehension starts, so merging moves
+            # side effects of the outer comprehension in between those of the inner conditions,
+            # and for a set, to other and more elements.
+            outer_side_effect = any(
+                core.has_side_effect(node, safe_callables)
+                for node in [template_match.root.elt] + template_match.ifs_outer
+            )
+            inner_side_effect = any(
+                core.has_side_effect(node, safe_callables) for node in template_match.ifs_inner
+            )
+            if outer_side_effect and (
+                inner_side_effect or isinstance(template_match.root, ast.SetComp)
+            ):
+                continue
 
         replacement = type(template_match.root)(
             elt=template_match.root.elt,
